@@ -14,7 +14,7 @@ from harness import pcommon as pc
 from harness.c04 import _toks
 
 from fst import FST
-from fst.match import M, MBinOp, MCall, MList, MName, MQSTAR
+from fst.match import M, MAttribute, MBinOp, MCall, MList, MName, MOR, MQSTAR
 
 PROPERTY = 'C18'
 THOROUGH_SCALE = 2.0
@@ -84,6 +84,27 @@ def p1_loop(loop: int):
         t = pc.o_parse(root, 'sub.loop')
         check(ast.dump(t) == exp, 'sub.loop.result_differs_from_reference', (lp, pc.R(root.src), pc._first_diff(exp, ast.dump(t))))
         check((pc.R(nu), pc.R(nt)) == (ru, rt), 'sub.loop.reported_counts_differ', (lp, (pc.R(nu), pc.R(nt)), (ru, rt)))
+    cover('ok')
+
+
+def p1_loop_ctx(loop: int, cx: bool):
+    """the loop re-match uses the same ctx setting as the search: 'start' -> 'q.z' matches again (MAttribute(value=MName('q', ctx=Store()))) only if
+    expression contexts are NOT compared"""
+    assume(1 <= loop <= 5)
+    lp = pc.pin(loop, 1, 5)
+    with pc.untraced():
+        root = FST('start\n', 'exec')
+        pc.reset_globals()
+    pat = MOR(MName(id='start'), MAttribute(value=MName(id='q', ctx=ast.Store())))
+    try:
+        with FST.options(**pc.OPTS):
+            _r, nu, nt = root.subn(pat, 'q.z', ctx=cx, loop=lp)
+    except pc.EXPECTED_RAISES as ex:
+        fail('sub.loop_ctx.raised', (lp, cx, type(ex).__name__, str(ex)[:200]))
+    with pc.untraced():
+        pc.o_parse(root, 'sub.loop_ctx')
+        exp = (1, 1) if cx else (1, lp)       # with ctx=True the Load context of the new 'q' does not match Store: one substitution
+        check((pc.R(nu), pc.R(nt)) == exp, 'sub.loop_ctx.rematch_ignores_the_ctx_setting', (lp, cx, (pc.R(nu), pc.R(nt)), exp))
     cover('ok')
 
 
@@ -205,3 +226,5 @@ for _k, _rows in (('calls', ('call_wrap', 'identity_binop', 'str_slot')), ('name
                           tier='quick', budget=900, per_path=120, out='rows/carriers outside the table; loop, callbacks, scope/back settings', reset=pc.reset_globals))
 CELLS.append(Cell('P1.sub_loop[nestlists]', p1_loop, 'P', FNU, 'pattern [x] -> x with loop budget symbolic in 0..6 (0 = unbounded) on a carrier with several nested single-element lists of different depths; reference = per-location unwrapping',
                   tier='quick', budget=600, per_path=120, reset=pc.reset_globals))
+CELLS.append(Cell('P1.sub_loop_ctx', p1_loop_ctx, 'P', FNU, 'loop budget symbolic 1..5 and ctx boolean: the re-match of a substituted location compares expression contexts exactly when the search does',
+                  tier='quick', budget=300, per_path=60, reset=pc.reset_globals))
